@@ -190,6 +190,94 @@ pub fn run_plan(p: &Plan, run: u64) -> Value {
            "final_mesh":sim.full_mesh()})
 }
 
+/// The two ends finish the handshake `lag` seconds apart (the peng is lost that often), so their rotation timers are
+/// staggered; every sealed datagram a node emits while housekeeping (node information, key rotation) is delivered and
+/// then delivered AGAIN `dup_after` housekeeping rounds later from its original source - a duplicating network or a
+/// verbatim replay inside the replay window; one probe frame per second in each direction must arrive exactly once.
+pub fn run_stagger(run: u64, lag: i64, dup_after: i64, secs: i64) -> Value {
+    let mut sim: Sim<Frame> = Sim::new(7000 + run);
+    sim.trace_sample(run, 3, 80_000);
+    let mut cfg = base_config(Mode::Switch);
+    cfg.keepalive = Some(30);
+    sim.add_node(false, &cfg);
+    sim.add_node(false, &cfg);
+    let a0 = sim.nodes[0].addr;
+    sim.connect(1, a0);
+    sim.faults.cut.insert((2, 1)); // the ping is on its way already; the peng will be lost
+    sim.deliver_due();
+    for _ in 1..lag {
+        sim.tick();
+    }
+    sim.faults.cut.clear();
+    sim.tick();
+    sim.tick();
+    let healthy0 = sim.full_mesh();
+    let healthy_at = sim.now;
+    sim.capture = false;
+    let mut n = 0u64;
+    let (mut sent, mut lost_conn_ticks, mut route_loss) = (0u64, 0u64, 0u64);
+    let mut expect: std::collections::HashMap<Vec<u8>, usize> = Default::default();
+    let mark = sim.delivered.len();
+    let mut dups = 0u64;
+    // learn both directions first
+    for s in 0..secs {
+        sim.now += 1;
+        crate::util::MockTimeSource::set_time(sim.now);
+        sim.note_time();
+        for i in 0..2 {
+            let r = sim.housekeep(i);
+            for d in &r.sent {
+                if d.bytes.first().map(|b| *b <= 3).unwrap_or(false) && d.bytes.len() >= 24 {
+                    if let Some(to) = sim.idx_of(&d.to) {
+                        dups += 1;
+                        let due = sim.now + dup_after;
+                        sim.inject_copy(to, addr_of(d.from), d, due);
+                    }
+                }
+            }
+        }
+        sim.deliver_due();
+        if !sim.full_mesh() {
+            lost_conn_ticks += 1;
+        }
+        for (i, j) in [(0usize, 1usize), (1, 0)] {
+            n += 1;
+            let f = frame_for(i, j, n);
+            let r = sim.iface(i, &f);
+            if s > 2 && (r.sent.len() != 1 || r.sent[0].to != sim.nodes[j].addr) {
+                route_loss += 1;
+            }
+            expect.insert(f, j);
+            sent += 1;
+        }
+        sim.deliver_due();
+    }
+    let (mut delivered_once, mut missing, mut extra, mut wrong) = (0u64, 0u64, 0u64, 0u64);
+    let mut seen: std::collections::HashMap<Vec<u8>, u32> = Default::default();
+    for (_, port, f) in sim.delivered[mark..].iter() {
+        match expect.get(f) {
+            Some(j) if *j + 1 == *port as usize => *seen.entry(f.clone()).or_insert(0) += 1,
+            Some(_) => wrong += 1,
+            None => extra += 1,
+        }
+    }
+    for (f, _) in expect.iter() {
+        match seen.get(f) {
+            Some(1) => delivered_once += 1,
+            Some(c) => {
+                delivered_once += 1;
+                extra += (*c - 1) as u64
+            }
+            None => missing += 1,
+        }
+    }
+    json!({"op":"c09run","run":run,"nodes":2,"k":0,"kind":"rotation-dup","len":0,"offset":dup_after,"src":0,"edit":0,
+           "healthy0":healthy0,"healthy_at":healthy_at - T0,"age":0,"inject":{"duplicates":dups,"lag":lag},
+           "sent":sent,"delivered":delivered_once,"missing":missing,"extra":extra,"wrong":wrong,
+           "lost_conn_ticks":lost_conn_ticks,"route_loss":route_loss,"panics":sim.total_panics(),"storm_ticks":sim.storm_ticks,
+           "final_mesh":sim.full_mesh()})
+}
+
 pub fn run(tier: &str, out_path: &str) -> Value {
     let quick = tier == "quick";
     let mut plans: Vec<Plan> = vec![];
@@ -234,7 +322,16 @@ pub fn run(tier: &str, out_path: &str) -> Value {
             plans = sample;
         }
     }
-    let results = parallel_map(&plans, |i, p| run_plan(p, i as u64));
+    let mut results = parallel_map(&plans, |i, p| run_plan(p, i as u64));
+    // staggered rotation timers with duplicated housekeeping datagrams
+    let mut stag: Vec<(i64, i64)> = vec![];
+    for lag in [1i64, 2, 3] {
+        for dup_after in [0i64, 1, 2] {
+            stag.push((lag, dup_after));
+        }
+    }
+    let secs = if quick { 380 } else { 1300 };
+    results.extend(parallel_map(&stag, |i, (lag, dup)| run_stagger(i as u64, *lag, *dup, secs)));
     let mut t = Trace::create(out_path);
     let mut skipped = 0;
     for r in &results {
@@ -245,5 +342,5 @@ pub fn run(tier: &str, out_path: &str) -> Value {
     }
     let events = t.finish();
     let cloud = write_cloud_blocks(&format!("{}.cloud", out_path));
-    json!({"runs": plans.len(), "steps": plans.len(), "events": events, "skipped": skipped, "cloud_events": cloud})
+    json!({"runs": plans.len() + stag.len(), "steps": plans.len() + stag.len(), "events": events, "skipped": skipped, "cloud_events": cloud})
 }
